@@ -455,7 +455,7 @@ recode_qp(const char *buf, const off_t len)
 			if (buf[off + chunk] == '\r') {
 				chunk++;
 				llen = 0;
-				if (buf[off + chunk] == '\n') {
+				if ((off + (off_t) chunk < len) && (buf[off + chunk] == '\n')) {
 					/* valid CRLF pair, chunk can accumulate further */
 					chunk++;
 				} else {
